@@ -162,7 +162,19 @@ def norm(path):
     while prev != path:
         prev = path
         path = _GEN.sub("", path)
-    return path
+    return _PRELUDE.get(path, path)
+
+
+_PRELUDE = {
+    "std::prelude::v1::Ok": "std::result::Result::Ok",
+    "std::prelude::v1::Err": "std::result::Result::Err",
+    "std::prelude::v1::Some": "std::option::Option::Some",
+    "std::prelude::v1::None": "std::option::Option::None",
+    "core::result::Result::Ok": "std::result::Result::Ok",
+    "core::result::Result::Err": "std::result::Result::Err",
+    "core::option::Option::Some": "std::option::Option::Some",
+    "core::option::Option::None": "std::option::Option::None",
+}
 
 
 def base_ty(t):
